@@ -2,7 +2,7 @@
 # tools/confirm_seed.sh <PID> <N>: confirm a seeded change in the scratch worktree /tmp/wt_base (never in /repo):
 #  1. demo passes on the unchanged tree, 2. patch applies, everything affected rebuilds, the full existing suite passes,
 #  3. demo fails with the patch.  Result summary in /tmp/mut/confirm/<PID>_mut<N>.txt
-PID="$1"; N="$2"; WT=/tmp/wt_base; OUT=/tmp/mut/confirm/${PID}_mut${N}.txt; D=/tmp/mut/${PID}_out
+PID="$1"; N="$2"; WT="${WT:-/tmp/wt_base}"; OUT=/tmp/mut/confirm/${PID}_mut${N}.txt; D=/tmp/mut/${PID}_out
 JOBS="${JOBS:-6}"
 build_demo() { g++ -std=c++17 -O1 -DNDEBUG -w -I$WT -I$WT/_build $D/demo$N.cpp -Wl,--start-group $(find $WT/_build/kernel $WT/_build/thirdparty -name '*.a' 2>/dev/null) -Wl,--end-group -lpthread -o /tmp/mut/confirm/${PID}_demo$N 2>/tmp/mut/confirm/${PID}_demo$N.err; }
 {
